@@ -968,7 +968,7 @@ fn union_single_and_range(
             for c in s1.chars() {
                 indicies.insert(find_char_index(chars, c)?);
             }
-            for i in min_i..max_i {
+            for i in min_i..=max_i {
                 indicies.insert(i);
             }
             let mut indices = indicies.iter().collect::<Vec<_>>();
